@@ -394,17 +394,21 @@ func checkTrans(c transCase, o *pbt.Rec) pbt.Verdict {
 		if got.bad != "" {
 			return pbt.Bad("the long-lived engine fails on a request a fresh engine answers: %s%s", got.bad, ctx("shared default", got))
 		}
-		if got.data != want.data || got.errs != want.errs {
-			return pbt.Bad("the long-lived engine (plan cache, earlier requests) answers differently from a fresh engine%s", ctx("shared default", got))
-		}
 		// two fetches on one response path see each other's merged items, so which of them finds
-		// something to send depends on the completion order of that run: request sets are only
-		// compared for plans without such twins (the response is compared always)
+		// something to send depends on the completion order of that run
 		twins := false
 		if p, err := shared.Plan(op); err == nil {
 			if sp, ok := p.(*plan.SynchronousResponsePlan); ok && sp.Response != nil && sp.Response.Fetches != nil {
 				twins = ftree.PathTwins(sp.Response.Fetches)
 			}
+		}
+		if got.data == want.data && got.errs != want.errs && twins {
+			// the redundant request of a path twin selected an err_ field: the data is the same but
+			// the error list differs from run to run (recorded with the twin finding)
+			return pbt.BadKnown(fScheduledTwin, "the error list differs between two runs of the same request (same data)%s", ctx("shared default", got))
+		}
+		if got.data != want.data || got.errs != want.errs {
+			return pbt.Bad("the long-lived engine (plan cache, earlier requests) answers differently from a fresh engine%s", ctx("shared default", got))
 		}
 		if twins {
 			o.Label("plan-with-path-twins(request-sets-not-compared)")
@@ -433,6 +437,9 @@ func checkTrans(c transCase, o *pbt.Rec) pbt.Verdict {
 				return pbt.Bad("option set %s changes the response data%s", name, ctx(name, a))
 			}
 			if (a.nerrs == 0) != (want.nerrs == 0) {
+				if twins {
+					return pbt.BadKnown(fScheduledTwin, "option set %s changes whether the response reports errors (plan with path twins)%s", name, ctx(name, a))
+				}
 				return pbt.Bad("option set %s changes whether the response reports errors%s", name, ctx(name, a))
 			}
 			if fmt.Sprint(a.reqs) != fmt.Sprint(want.reqs) {
